@@ -14,6 +14,7 @@ import (
 	"net"
 	"net/http"
 	"net/http/httptest"
+	"net/url"
 	"os"
 	"strconv"
 	"strings"
@@ -54,6 +55,13 @@ type Stats struct {
 	Queries      int
 	Concurrent   bool
 }
+
+// failWriter is a ResponseWriter whose client is gone: every Write fails.
+type failWriter struct{ h http.Header }
+
+func (f *failWriter) Header() http.Header       { return f.h }
+func (f *failWriter) WriteHeader(int)           {}
+func (f *failWriter) Write([]byte) (int, error) { return 0, fmt.Errorf("write: broken pipe") }
 
 // hookWriter runs hook once, when the handler first touches the response (headers or body).
 type hookWriter struct {
@@ -309,14 +317,29 @@ func runCase(c Case, st *Stats) *ev.Failure {
 			if body != join(before) && body != join(texts) {
 				return ev.Failf("op %d: a query during which a message arrived returned neither the window before nor the window after the arrival (%d bytes; before %d entries, after %d)", i, len(body), len(before), len(texts))
 			}
+		case "get_client_gone":
+			// the client disappears while the answer is written: every Write fails. Whatever the handler
+			// does with that, the store must stay usable: the next arrival and query must not block
+			st.Queries++
+			flowRecordHandler(&failWriter{h: http.Header{}}, httptest.NewRequest("GET", "/records?format="+o.Format, nil))
+			doneA := make(chan *ev.Failure, 1)
+			go func() { doneA <- arrive(i, Op{Kind: "msg", Fields: []ref.Field{glue.UserField(ref.TU32)}, Recs: [][]ref.Value{{{U: 78}}}}) }()
+			select {
+			case f := <-doneA:
+				if f != nil {
+					return f
+				}
+			case <-time.After(10 * time.Second):
+				return ev.Failf("op %d: after a %s query whose client went away mid-response, the next arriving message is never stored (the store is blocked)", i, o.Format)
+			}
 		case "get":
 			st.Queries++
 			q := []string{}
 			if o.Count != "-" {
-				q = append(q, "count="+o.Count)
+				q = append(q, "count="+url.QueryEscape(o.Count))
 			}
 			if o.Format != "-" {
-				q = append(q, "format="+o.Format)
+				q = append(q, "format="+url.QueryEscape(o.Format))
 			}
 			url := "/records"
 			if len(q) > 0 {
@@ -425,8 +448,10 @@ func genCase(t *rapid.T) Case {
 			c.Ops = append(c.Ops, Op{Kind: "burst", N: rapid.SampledFrom([]int{1, 5, 100, 4090, 4095, 4096, 4097, 5000}).Draw(t, "burst")})
 		case k <= 16:
 			c.Ops = append(c.Ops, Op{Kind: "get",
-				Count:  rapid.SampledFrom([]string{"-", "-", "0", "1", "2", "3", "17", "4095", "4096", "4097", "100000", "-1", "abc", "1.5", ""}).Draw(t, "count"),
+				Count:  rapid.SampledFrom([]string{"-", "-", "0", "1", "2", "3", "17", "4095", "4096", "4097", "100000", "-1", "abc", "1.5", "", "010", "0010", "08", "009", "0x10", "0b11", "0o7", "1_0", "+5", " 5", "1e3"}).Draw(t, "count"),
 				Format: rapid.SampledFrom([]string{"-", "-", "json", "text", "text", "xml", "JSON", ""}).Draw(t, "format")})
+		case k == 17 && rapid.IntRange(0, 2).Draw(t, "gone") == 0:
+			c.Ops = append(c.Ops, Op{Kind: "get_client_gone", Format: rapid.SampledFrom([]string{"text", "json"}).Draw(t, "goneformat")})
 		case k == 17:
 			if rapid.Bool().Draw(t, "conc") {
 				c.Ops = append(c.Ops, Op{Kind: "get_during_arrival"})
@@ -470,7 +495,8 @@ func TestC20(t *testing.T) {
 		pre.Ops = append(pre.Ops, Op{Kind: "burst", N: 4095}, Op{Kind: "get", Count: "-", Format: "-"}, Op{Kind: "burst", N: 1}, Op{Kind: "get", Count: "4096", Format: "text"},
 			Op{Kind: "burst", N: 1}, Op{Kind: "get", Count: "4097", Format: "json"}, Op{Kind: "get", Count: "1", Format: "json"})
 	}
-	pre.Ops = append(pre.Ops, Op{Kind: "get_during_arrival"}, Op{Kind: "get_during_arrival"}, Op{Kind: "reset"}, Op{Kind: "get", Count: "-", Format: "-"}, Op{Kind: "burst", N: 2}, Op{Kind: "get", Count: "5", Format: "text"})
+	pre.Ops = append(pre.Ops, Op{Kind: "get_during_arrival"}, Op{Kind: "get_during_arrival"}, Op{Kind: "get_client_gone", Format: "text"}, Op{Kind: "get_client_gone", Format: "json"},
+		Op{Kind: "get", Count: "010", Format: "-"}, Op{Kind: "get", Count: "08", Format: "text"}, Op{Kind: "get", Count: "0x10", Format: "-"}, Op{Kind: "get", Count: "1_0", Format: "-"}, Op{Kind: "reset"}, Op{Kind: "get", Count: "-", Format: "-"}, Op{Kind: "burst", N: 2}, Op{Kind: "get", Count: "5", Format: "text"})
 	if f := runRecorded("preamble", pre); f != nil {
 		rec.Violation("preamble", pre, f.Msg)
 		t.Fatalf("%s", f.Msg)
